@@ -18,7 +18,7 @@ for mp in sorted(glob.glob(V + "/seeded/*/meta.json")):
         items.append(("seeded/" + os.path.basename(os.path.dirname(mp)), os.path.join(os.path.dirname(mp), "patch.diff"), ks[0], "mutant"))
 bad = 0
 for name, p, exp, kind in items:
-    r = subprocess.run(["patch", "-p1", "-s", "--no-backup-if-mismatch", "-i", p], cwd="/repo", stdout=subprocess.PIPE, stderr=subprocess.STDOUT, text=True)
+    r = subprocess.run(["patch", "-p1", "-s", "-F0", "--no-backup-if-mismatch", "-i", p], cwd="/repo", stdout=subprocess.PIPE, stderr=subprocess.STDOUT, text=True)
     try:
         if r.returncode != 0:
             print("SKIP   %s (does not apply)" % name); continue
